@@ -290,7 +290,9 @@ def exec_upgrade(conn, mctx, script):
         migration_context=mctx,
     )
     op = Operations(mctx)
-    glob = {"op": op, "sa": sa, "sqlalchemy": sa}
+    from sqlalchemy.dialects import sqlite as _sqlite
+
+    glob = {"op": op, "sa": sa, "sqlalchemy": sa, "sqlite": _sqlite}
     body = "def upgrade():\n" + "\n".join("    " + l if l.strip() else l for l in src.splitlines()) + "\n"
     # render_python_code already indents the body by 4 spaces
     code = "def upgrade():\n" + (src if src.strip() else "    pass") + "\n"
